@@ -90,6 +90,8 @@ POST2 = [
     ["summarize", [["n", ["count_star"]], ["t", ["sum", Cn("a2")]]]],  # after alias: second-level aggregate
     ["group_by", [Cn("a2")]],
     ["filter", [["ge", Cn("a2"), lit(1)]]],
+    ["summarize", [["n", ["count_star"]]]],  # second-level aggregates that do not need an aggregate column
+    ["summarize", [["n", ["count_star"]], ["m", ["max", Cn("g")]], ["c", ["count", Cn("g")]]]],  # (also after summarize())
 ]
 POST3 = [["summarize", [["n", ["count_star"]], ["m", ["max", Cn("a1")]]]]]
 
